@@ -145,7 +145,7 @@ CHECKS = {
                 "strict boundary is C07/C10's.",
         "assumptions": ["porcupine v1.3.0 linearizability checker", "clock frozen within a phase"],
         "jobs": [
-            {"run": "^TestC08Linearizable$", "n": {"quick": 12000, "thorough": 60000}},
+            {"run": "^TestC08Linearizable$", "n": {"quick": 20000, "thorough": 80000}},
         ],
     },
     "C09": {
